@@ -669,6 +669,12 @@ def execute(trace, root):
     except SeamCapExceeded as e:
         cap = str(e)
         h.viol.append(("C14/step-cap", "run exceeded the seam-call cap: %s" % e))
+    # containment tripwire (C09 is not claimed; a breach is a violation of C14's own directory clause):
+    # the sentinel outside every configured directory must never be opened
+    for rel in h.world.opened:
+        if rel.startswith("/outside"):
+            h.viol.append(("C14/outside-root", "a file outside every configured directory was opened: %s" % rel))
+            break
     probes = dict(h.probes)
     for k, v in h.model.probes.items():
         probes[k] = probes.get(k, 0) + v
